@@ -150,6 +150,12 @@ pub fn corpus(thorough: bool) -> Vec<String> {
             }
         }
     }
+    // longer reference cycles in several declaration orders (boxing decisions)
+    for (n, src) in crate::det::cycle_sources() {
+        if n >= 3 {
+            v.push(src);
+        }
+    }
     // skip rules
     for ws in ["\" \"", "\"\"", "\" \"*", "\" \"?", "!\" \"", "&\" \"", "\" \" | \"\"", "a", "\" \"+"] {
         for k in kinds {
@@ -256,7 +262,8 @@ pub fn run(o: &Opts) -> Report {
                 !name.is_empty() && body.split(|c: char| !c.is_alphanumeric() && c != '_').any(|w| w == name)
             });
             let single = s.lines().count() == 1;
-            if i % step == 0 || (recursive && (o.thorough || (single && i % 3 == 0))) {
+            let cycle = s.contains("r2 = ");
+            if cycle || i % step == 0 || (recursive && (o.thorough || (single && i % 3 == 0))) {
                 items.push((s.clone(), vec![]));
                 items.push((s.clone(), vec!["box_only_if_needed".to_string()]));
             }
